@@ -15,14 +15,14 @@ def kindOf (k : String) : Option Kind :=
   match k with
   | "sym" => some .symbols
   | "diag" => some .diag
-  | "compl" => some .analysis
-  | "def" => some .analysis
-  | "defp" => some .analysis
-  | "prep" => some .analysis
-  | "subc" => some (.table true)
-  | "subm" => some (.table true)
-  | "sup" => some (.table false)
-  | "xcompl" => some (.table false)
+  | "compl" => some (.analysis true)
+  | "def" => some (.analysis true)
+  | "defp" => some (.analysis true)
+  | "prep" => some (.analysis false)
+  | "subc" => some (.table .around)
+  | "subm" => some (.table .around)
+  | "sup" => some (.table .after)
+  | "xcompl" => some (.table .no)
   | _ => none
 
 inductive PreOp where
@@ -74,20 +74,28 @@ def parseWord (c : Case) (w : String) : Case :=
   | "S" => { c with sched := c.sched ++ (rest.splitOn ",").filterMap (·.toNat?) }
   | "Q" => match rest.splitOn ":" with
     | [k, d] => match kindOf k with
-      | some k => { c with probes := c.probes ++ [(k, if k == .table false && d == "D" then "D" else d)] }
+      | some k => { c with probes := c.probes ++ [(k, d)] }
       | none => { c with bad := true }
     | _ => { c with bad := true }
   | _ => { c with bad := true }
 
-def whereStr (th : Thread) : String :=
-  match th.pc with
-  | .start => "start"
-  | .mOp (_ :: _) => "op"
-  | .mWindow p _ _ => "change.window@a" ++ p
-  | .yParsed _ => "parsed.unlocked@a" ++ th.p
-  | .yChecked _ => "analyze.checked@a" ++ th.p
-  | .yPublished _ _ _ => "annot.published@a" ++ th.p
-  | pc => if pc.finished then "done" else "blocked"
+def whereStr (s : St) : Nat → String
+  | 0 =>
+    match s.main with
+    | .ops (_ :: _) => "op"
+    | .window p _ => "change.window@a" ++ p
+    | .ops [] => "done"
+    | .save _ _ => "blocked"
+  | t + 1 =>
+    match s.ths[t]? with
+    | none => "-"
+    | some th =>
+      match th.pc with
+      | .start => "start"
+      | .yParsed _ => "parsed.unlocked@a" ++ th.p
+      | .yChecked _ => "analyze.checked@a" ++ th.p
+      | .yPublished _ _ _ => "annot.published@a" ++ th.p
+      | pc => if pc.isDone then "done" else "blocked"
 
 def verNum (v : String) : Nat := v.toNat?.getD 0
 
@@ -101,50 +109,34 @@ def classStr : Out → String
 /-- run thread `t` to completion through its own yield points (sequential phases) -/
 def complete (cfg : Cfg) : Nat → St → Nat → St
   | 0, s, _ => s
-  | fuel + 1, s, t =>
-    match s.ths[t]? with
-    | some th => if th.pc.parked then complete cfg fuel (coarse cfg s t) t else s
-    | none => s
-
-def setMainOps (s : St) (ops : List Op) : St :=
-  match s.ths[0]? with
-  | some th => s.setTh 0 { th with pc := .mOp ops }
-  | none => s
+  | fuel + 1, s, t => if s.parkedAt t then complete cfg fuel (coarse cfg s t) t else s
 
 def runPre (cfg : Cfg) (s : St) : List PreOp → St
   | [] => s
-  | .op o :: rest => runPre cfg (complete cfg 16 (setMainOps s [o]) 0) rest
+  | .op o :: rest => runPre cfg (complete cfg 16 (s.setMain (.ops [o])) 0) rest
   | .req k p :: rest =>
-    let t := s.ths.length
+    let t := s.ths.length + 1
     runPre cfg (complete cfg 16 { s with ths := s.ths ++ [reqThread (k, p)] } t) rest
 
 def stepTok (before after : St) (t : Nat) : String :=
-  let self := match after.ths[t]? with
-    | some th => s!"{t}:{whereStr th}"
-    | none => s!"{t}:-"
-  let others := (List.range after.ths.length).filterMap fun u =>
-    if u = t then none else
-    match before.ths[u]?, after.ths[u]? with
-    | some a, some b => if whereStr a ≠ whereStr b then some s!"+{u}:{whereStr b}" else none
-    | _, _ => none
-  self ++ String.join others
+  let others := (List.range (after.ths.length + 1)).filterMap fun u =>
+    if u = t then none
+    else if whereStr before u ≠ whereStr after u then some s!"+{u}:{whereStr after u}" else none
+  s!"{t}:{whereStr after t}" ++ String.join others
 
 def forced (cfg : Cfg) : St → List Nat → List String → St × List String
   | s, [], acc => (s, acc.reverse)
   | s, t :: rest, acc =>
-    match s.ths[t]? with
-    | some th =>
-      if th.pc.parked then
-        let s' := coarse cfg s t
-        forced cfg s' rest (stepTok s s' t :: acc)
-      else forced cfg s rest (s!"{t}:-" :: acc)
-    | none => forced cfg s rest (s!"{t}:-" :: acc)
+    if s.parkedAt t then
+      let s' := coarse cfg s t
+      forced cfg s' rest (stepTok s s' t :: acc)
+    else forced cfg s rest (s!"{t}:-" :: acc)
 
 /-- the lowest parked thread among the first `n` runs on, until nobody is parked -/
 def drain (cfg : Cfg) (n : Nat) : Nat → St → List String → St × List String
   | 0, s, acc => (s, acc)
   | fuel + 1, s, acc =>
-    match (List.range n).find? (fun t => match s.ths[t]? with | some th => th.pc.parked | none => false) with
+    match (List.range n).find? (fun t => s.parkedAt t) with
     | some t => let s' := coarse cfg s t; drain cfg n fuel s' (acc ++ [stepTok s s' t])
     | none => (s, acc)
 
@@ -153,7 +145,7 @@ def allowedStr (s : St) (th : Thread) (hi : Nat) : String :=
   ".".intercalate ((List.range ts.length).filterMap fun i => if th.lo ≤ i ∧ i ≤ hi then ts[i]? else none)
 
 def threadStr (s : St) (id : Nat) : String :=
-  match s.ths[id]? with
+  match s.ths[id - 1]? with
   | some th =>
     match th.pc with
     | .done out hi => s!"t{id}={classStr out}/{allowedStr s th hi}"
@@ -162,7 +154,7 @@ def threadStr (s : St) (id : Nat) : String :=
 
 def probe (cfg : Cfg) (s : St) (kp : Kind × String) : St × String :=
   let t := s.ths.length
-  let s' := complete cfg 16 { s with ths := s.ths ++ [reqThread kp] } t
+  let s' := complete cfg 16 { s with ths := s.ths ++ [reqThread kp] } (t + 1)
   let last := ((s'.recs kp.2).texts.getLast?).getD "?"
   match s'.ths[t]? with
   | some th => match th.pc with
@@ -174,10 +166,10 @@ def runCase (cfg : Cfg) (c : Case) : String :=
   let disk : String → String := fun p => (Gold.Doc.lookup p c.disk).getD "1"
   let n := c.threads.length + 1
   let s₀ := init disk [] (c.threads.map fun x => (x.2.1, x.2.2))
-  let s₁ := setMainOps (runPre cfg s₀ c.pre) c.main
+  let s₁ := (runPre cfg s₀ c.pre).setMain (.ops c.main)
   let (s₂, tr₁) := forced cfg s₁ c.sched []
   let (s₃, tr) := drain cfg n 200 s₂ tr₁
-  let allDone := (List.range n).all fun t => match s₃.ths[t]? with | some th => th.pc.finished | none => true
+  let allDone := (List.range n).all fun t => s₃.finishedAt t
   let fin := if allDone then "ok" else "deadlock"
   let tw := c.threads.map fun x => threadStr s₃ x.1
   let (_, qs) := c.probes.foldl (fun (acc : St × List String) kp => let r := probe cfg acc.1 kp; (r.1, acc.2 ++ [r.2])) (s₃, [])
